@@ -210,7 +210,7 @@ def _crash_runner(leg, prop, tier, seed, jobs, ROOT, BUILD, replay_case):
     res = LegResult(leg["name"])
     binp = os.path.join(BUILD, "native", "release", "arroy-verif")
     scratch = os.environ.get("VERIF_CRASH_SCRATCH", tempfile.gettempdir())
-    versions = 4
+    versions = 6
     thorough = tier == "thorough"
     rng = random.Random(seed * 7919 + 13)
     STRACE_SET = "lseek,writev,pwritev,pwrite64,fdatasync,fsync"
@@ -305,10 +305,12 @@ def _crash_runner(leg, prop, tier, seed, jobs, ROOT, BUILD, replay_case):
     for cs, counts in scen:
         for v in range(1, versions + 1):
             polls, steps, ops = counts[v]
-            if thorough and v <= 2:
+            if polls == 0:
+                ks = []   # a staging version: appended items are committed without a build
+            elif thorough and v in (1, 3):
                 ks = list(range(polls))
             else:
-                n = 50 if not thorough else 200
+                n = 35 if not thorough else 200
                 ks = sorted(set([0, 1, polls - 1] + [rng.randrange(polls) for _ in range(n)]))
             for k in ks:
                 specs.append((cs, f"poll:{v}:{k}", dict(kill=f"poll:{v}:{k}")))
@@ -388,7 +390,7 @@ def _crash_runner(leg, prop, tier, seed, jobs, ROOT, BUILD, replay_case):
                               "msg": f"kill point {label} (last ACK {acked}, commit in flight {inflight}): {msg}"})
     if strace_failed:
         c["strace_unavailable_runs"] = strace_failed
-    res.rule = ("fault enumeration over crash points: a child process runs a deterministic history of 5 committed versions (1 rayon thread) and is SIGKILLed "
+    res.rule = ("fault enumeration over crash points: a child process runs a deterministic history of 7 committed versions (two of them staging versions: items appended and committed without a build; 1 rayon thread) and is SIGKILLed "
                 "(a) at the k-th cancellation poll of a build (every k for two builds in the thorough tier, sampled otherwise), (b) at every progress step, "
                 "(c) before the k-th item operation, (d) right after a commit returned, (e) at a random instant between COMMITTING and ACK, "
                 "(f) by strace at the K-th invocation of each commit syscall (lseek, writev, pwritev, pwrite64, fdatasync, fsync; K=1..9, 14 thorough); a fresh process then reopens the directory and compares what is visible "
